@@ -1286,7 +1286,7 @@ func crashChildMain() {
 // `negpool … -1`).  Until hooks/C16-fix-poolcount.patch is in /repo the RANDOM part of the generator and the
 // storms stay at PoolCount >= 0, otherwise every run would die at a random place of the same cause.  Set to true
 // together with Crash.poolCountIsFixed.
-const crashNegPoolsInStorms = false
+const crashNegPoolsInStorms = true
 
 func crashPools(xs []int) []int {
 	if crashNegPoolsInStorms {
